@@ -167,14 +167,14 @@ def constructive(rng, case, idx):
             if R.measure(target, den) <= 0:
                 den = 'g'
             cval = R.canon(s, added[s] if skind != 'container_solute' else target[s]) * R.per(s, num) / R.measure(target, den)
-            if cval < 1e-5 or cval > 1e8:
-                # too few significant digits survive the 1e-10 rounding of a parsed concentration, or numerically wild
+            if cval < 1e-14 or cval > 1e8:
+                # numerically wild (a stated concentration keeps ten significant digits at every magnitude)
                 num, den = ('U', 'L') if s.is_enzyme() else ('mol', 'L')
                 cval = R.canon(s, added[s] if skind != 'container_solute' else target[s]) * R.per(s, num) / max(R.measure(target, den), 1e-300)
-                if cval < 1e-5 or cval > 1e8:
+                if cval < 1e-14 or cval > 1e8:
                     ok = False
             concs.append(spell_conc(rng, cval, num, den, s))
-            if cf.q / max(cval, 1e-300) > 1e-7 and spec == 'conc+quantity' and n >= 2:
+            if R.conc_quantum(cval) / max(cval, 1e-300) > 1e-7 and spec == 'conc+quantity' and n >= 2:
                 fragile = True
             qb = rng.choice(nums)
             quants.append(spell(rng, R.canon(s, added[s]) * R.per(s, qb), qb, exact=True))
